@@ -116,6 +116,70 @@ func runDecode(payload []*Sx) *Sx {
 			useValue(v)
 		}
 		return acc(err)
+	case "typed-value-json":
+		// the typed value decoders, called directly on the bytes (encoding/json would screen them first)
+		n := 0
+		var ip types.IPAddr
+		var dec types.Decimal
+		var dt types.Datetime
+		var du types.Duration
+		var u types.EntityUID
+		var set types.Set
+		var rec types.Record
+		var pat types.Pattern
+		var dcn types.Decision
+		var em types.EntityMap
+		if ip.UnmarshalJSON(b) == nil {
+			n++
+			useValue(ip)
+		}
+		if dec.UnmarshalJSON(b) == nil {
+			n++
+			useValue(dec)
+		}
+		if dt.UnmarshalJSON(b) == nil {
+			n++
+			useValue(dt)
+		}
+		if du.UnmarshalJSON(b) == nil {
+			n++
+			useValue(du)
+		}
+		if u.UnmarshalJSON(b) == nil {
+			n++
+			useValue(u)
+		}
+		if set.UnmarshalJSON(b) == nil {
+			n++
+			useValue(set)
+		}
+		if rec.UnmarshalJSON(b) == nil {
+			n++
+			useValue(rec)
+		}
+		if pat.UnmarshalJSON(b) == nil {
+			n++
+			_ = pat.MarshalCedar()
+			_, _ = pat.MarshalJSON()
+			_ = pat.Match("abc")
+		}
+		if dcn.UnmarshalJSON(b) == nil {
+			n++
+			_, _ = dcn.MarshalJSON()
+		}
+		if em.UnmarshalJSON(b) == nil {
+			n++
+			_, _ = em.MarshalJSON()
+		}
+		var u2 types.EntityUID
+		if u2.UnmarshalBinary(b) == nil {
+			n++
+			useValue(u2)
+		}
+		if n == 0 {
+			return L(A("rejected"))
+		}
+		return L(A("accepted"))
 	case "record-json":
 		var r types.Record
 		err := json.Unmarshal(b, &r)
